@@ -178,6 +178,9 @@ def correspondence(ctx):
             if not shape:
                 ctx.count("trace-shape-not-write-first")
         ctx.count("traces-checked", n)
+    # the shipped YAML entry point: a simulation after a simulation with optional overrides, in one file, vs the same options run directly
+    from props import c16
+    c16.yaml_independence_part(ctx)
 
 
 def search(ctx):
